@@ -96,6 +96,11 @@ class Env:
         self.exprs: dict[str, object] = {}
         self.engine = None
         self.frames = {t["name"]: make_frame(t) for t in prog["tables"]}
+        if backend in ("postgres", "mssql", "sqlite_nodata"):
+            from . import dialects
+
+            self.engine = dialects.engine("sqlite" if backend == "sqlite_nodata" else backend)
+            self.sqa_tables = {t["name"]: dialects.sqa_table(t["name"], [(c["name"], c["dtype"]) for c in t["cols"]]) for t in prog["tables"]}
         if backend == "sqlite":
             self.engine = sqa.create_engine("sqlite://")
             for name, df in self.frames.items():
@@ -108,6 +113,8 @@ class Env:
     def source(self, name: str) -> pdt.Table:
         if self.backend == "polars":
             return pdt.Table(self.frames[name], name=name)
+        if self.backend in ("postgres", "mssql", "sqlite_nodata"):
+            return pdt.Table(self.sqa_tables[name], pdt.SqlAlchemy(self.engine))
         return pdt.Table(name, pdt.SqlAlchemy(self.engine))
 
     # ---------------------------------------------------------------- expressions
@@ -189,6 +196,10 @@ class Env:
         if op == "union":
             return t >> pdt.union(self.tables[st["right"]], distinct=st.get("distinct", False))
         if op == "export":
+            if self.backend in ("postgres", "mssql", "sqlite_nodata"):
+                q1 = t >> pdt.build_query()
+                q2 = t >> pdt.build_query()
+                return dict(query=q1, same=(q1 == q2))
             return export_obs(t, st.get("target", "polars"))
         if op == "build_query":
             return t >> pdt.build_query()
